@@ -1252,7 +1252,22 @@ func main() {
 	// spread the large (expensive to evaluate) cases evenly over the run: hx cuts the case list into
 	// consecutive shards, one coqc each
 	big := bigCases(run, r)
-	big = append(big, ioCases(run, r)...)
+	// the reader / writer grid: only its expensive members (hundreds of records and more) are spread like the large
+	// cases, the cheap ones join the small stream
+	for _, c := range ioCases(run, r) {
+		heavy := false
+		switch d := c.Desc.(type) {
+		case bigFileDesc:
+			heavy = d.N >= 500
+		case bigMeshDesc:
+			heavy = d.N >= 500
+		}
+		if heavy {
+			big = append(big, c)
+		} else {
+			small = append(small, c)
+		}
+	}
 	every := len(small)/len(big) + 1
 	bi := 0
 	for i, c := range small {
